@@ -650,7 +650,8 @@ func bubble(s *seq, dir string, res *runResult) {
 			mgr.Unlock()
 		}
 		cancel()
-		for _, in := range r.allInsts() {
+		res.Insts = r.allInsts()
+		for _, in := range res.Insts {
 			in.src.Close()
 		}
 		r.drain()
